@@ -386,12 +386,34 @@ Definition ev_step20 (cf : pconf) (k : hk) (st : Z) (e : pevent) : option Z :=
   | _ => check (negb (st =? 2)) then Some st     (* the launch line follows the stop line at once *)
   end.
 
+(* ... and after initialize() and after every operation the pair is open exactly when the observed stream says
+   so (the observable form of C20_open_iff_state): available pair <-> the stream has a current sub-stream,
+   online pair <-> that sub-stream is a source's (a publisher's or the static source's, not the offline one) *)
+Definition open_expected (k : hk) (c : sub) : option bool :=
+  match k with
+  | HAvail => Some (match c with SNone => false | _ => true end)
+  | HOnline => Some (match c with SPub _ | SStatic => true | _ => false end)
+  | HDemand => None
+  end.
+Definition open_matches (cf : pconf) (k : hk) (st : Z) (c : sub) : bool :=
+  negb (h_start k cf)
+  || match open_expected k c with Some b => Bool.eqb (st =? 1) b | None => true end.
+
+Fixpoint run20 (cf : pconf) (k : hk) (st : Z) (steps : list (pop * list pevent * sub)) : option Z :=
+  match steps with
+  | [] => Some st
+  | (_, evs, c) :: r =>
+      match mrun (ev_step20 cf k) st evs with
+      | None => None
+      | Some st' => check (open_matches cf k st' c) then run20 cf k st' r
+      end
+  end.
+
 Definition spec_fail_c20 (c : pcase) : bool :=
   match c with
-  | PCase cf i _ steps0 =>
+  | PCase cf i isub steps0 =>
       let steps := evsteps steps0 in
-      let evs := all_events c in
-      negb (forallb (fun k => match mrun (ev_step20 cf k) 0 evs with
+      negb (forallb (fun k => match run20 cf k 0 ((Close, i, isub) :: steps0) with
                               | Some st => negb (ends_closed steps) || (st =? 0)
                               | None => false
                               end) [HAvail; HOnline; HDemand])
